@@ -89,10 +89,15 @@ func ReadHeader(h *protocol.ResponseHeader, r network.Reader) error {
 func WriteHeader(h *protocol.ResponseHeader, w network.Writer) error {
 	header := h.Header()
 	h.SetHeaderLength(len(header))
-	_, err := w.WriteBinary(header)
+	// header is the scratch buffer of h, which Set, Header, SetContentRange ... write again, and
+	// WriteBinary keeps referring to a slice of 4 KiB or more until the next Flush. Code of the
+	// application runs before that Flush (a handler that continues after the first Write on the chunked
+	// body writer, the Read of a body stream), so the head is copied into a buffer of the writer.
+	buf, err := w.Malloc(len(header))
 	if err != nil {
 		return err
 	}
+	copy(buf, header)
 	return nil
 }
 
